@@ -365,9 +365,15 @@ Canonical(bk) == /\ (bk.n = 1 => bk.nl = DefLen /\ bk.pos = "all" /\ bk.t = ATyp
                  /\ (bk.pos # "all" => bk.nl # DefLen)
 AllClasses == [p : PathLens, n : ColCounts, nl : NameLens \cup {DefLen}, pos : {"all", "first", "last"}, t : Types]
 Buckets == {bk \in AllClasses : Producible(bk) /\ Canonical(bk)}
-Partners == {bk \in Buckets : /\ bk.p = 22 /\ bk.pos = "all" /\ bk.t \in BigTypes
-                              /\ <<bk.n, bk.nl>> \in {<<2, 1>>, <<2, 300>>, <<256, 31>>}}
-RC(rt, bk) == IF rt = 1 /\ bk.n <= 2 THEN {"one", "many"} ELSE {"one"}
+MinOf(S) == CHOOSE x \in S : \A y \in S : x <= y
+MaxOf(S) == CHOOSE x \in S : \A y \in S : x >= y
+\* second bucket of a group: a short clean one, one with the longest name, one with the largest shape count
+Partners == {bk \in Buckets : /\ bk.p = MinOf({q \in PathLens : q \in 15..526}) /\ bk.pos = "all" /\ bk.t \in BigTypes
+                              /\ \/ (bk.n = 2 /\ bk.nl \in {MinOf(NameLens), MaxOf(NameLens)})
+                                 \/ (bk.n = MaxOf(ColCounts) /\ bk.n > 2 /\ bk.nl = DefLen)}
+\* payload classes: fixed = one row (empty for an Epoch-only bucket); variable = one row, or (narrow schemas) so
+\* many rows of one interval that the payload exceeds BigPayload bytes (BigPayload = 0 switches the class off)
+RC(rt, bk) == IF rt = 1 /\ bk.n <= 2 /\ BigPayload > 0 THEN {"one", "many"} ELSE {"one"}
 
 Init28 == st \in {[rt |-> r, b |-> <<bk>>, cmds |-> <<[b |-> 1, rc |-> rc]>>] : r \in {0, 1}, bk \in Buckets, rc \in {"one", "many"}}
           /\ st.cmds[1].rc \in RC(st.rt, st.b[1])
